@@ -417,6 +417,7 @@ pub fn c02_probes() -> Vec<(&'static str, String)> {
         ("nested-retype-of-outer-variable", p("    mut x = 1\n    if True:\n        x = \"s\"\n    print(1)\n")),
         ("append-while-iterating", p("    mut ys = [1, 2]\n    for v in ys:\n        if v > 5:\n            ys.append(v)\n    print(len(ys))\n")),
         ("derive-partialord-alone", "@derive(PartialOrd)\nmodel M:\n    a: int\n\ndef main() -> None:\n    m = M(a=1)\n    print(1)\n".to_string()),
+        ("tuple-literal-index", "def first(t: tuple[int, int]) -> int:\n    return t[0] + t[-1]\n\ndef main() -> None:\n    u = (3, 4)\n    print(first(u))\n    print(u[1])\n".to_string()),
         ("list-count-method", p("    xs = [1, 2, 1]\n    c = xs.count(1)\n    print(c)\n")),
         ("annotated-none-binding", p("    o: Option[int] = None\n    match o:\n        Some(v) => print(v)\n        None => print(0)\n")),
         ("default-parameter-omitted", "def f(a: int, b: int = 2) -> int:\n    return a + b\n\ndef main() -> None:\n    print(f(1))\n".to_string()),
@@ -452,6 +453,7 @@ pub fn c02_negative() -> Vec<(&'static str, String)> {
         ("argument-after-trait-parameter-wrong", "trait Named:\n    def name(self) -> str: ...\n\nclass Dog with Named:\n    n: str\n\n    def name(self) -> str:\n        return self.n\n\ndef greet(who: Named, times: int) -> None:\n    print(who.name())\n\ndef main() -> None:\n    greet(Dog(n=\"d\"), \"three\")\n".to_string()),
         ("call-with-too-few-arguments", p("def f() -> int:\n    return takes_int()\n")),
         ("call-with-too-many-arguments", p("def f() -> int:\n    return takes_int(1, 2)\n")),
+        ("call-with-keyword-hiding-missing-argument", "def area(width: int, height: int) -> int:\n    return width * height\n\ndef main() -> None:\n    print(area(height=7))\n".to_string()),
         ("call-with-unknown-keyword", p("def f() -> int:\n    return takes_int(v=1, zz=2)\n")),
         ("method-call-with-too-few-arguments", "class C:\n    n: int\n\n    def add(self, k: int) -> int:\n        return self.n + k\n\ndef main() -> None:\n    c = C(n=1)\n    print(c.add())\n".to_string()),
         ("bodyless-method-in-adopting-class", "trait Loggable:\n    def log(self, msg: str) -> None: ...\n\nclass Service with Loggable:\n    name: str\n\n    def log(self, msg: str) -> None\n\ndef main() -> None:\n    print(1)\n".to_string()),
@@ -540,6 +542,32 @@ pub fn run_c02(out: &mut Out, tier: &str, seed: u64, _scratch: &str) {
         extra_reqs.push(format!("c02 derive {kw} {}", if written.is_empty() { "-".to_string() } else { written.join(",") }));
         extra_cases.push(Case { name: String::new(), source: src });
     }
+    // the repository's own single-file examples (no external crates, no async runtime): realistic whole programs
+    {
+        let mut files: Vec<String> = Vec::new();
+        for dir in ["/repo/examples/simple", "/repo/examples/intermediate", "/repo/examples/advanced", "/repo/examples", "/repo/tests/fixtures/valid"] {
+            if let Ok(rd) = std::fs::read_dir(dir) {
+                for e in rd.filter_map(|e| e.ok()) {
+                    let p = e.path();
+                    if p.is_file() && p.extension().map(|x| x == "incn").unwrap_or(false) { files.push(p.to_string_lossy().to_string()); }
+                }
+            }
+        }
+        files.sort();
+        for f in files {
+            let Ok(src) = std::fs::read_to_string(&f) else { continue };
+            // the batch project links only the runtime crates: programs that need tokio / external crates are C15's
+            if src.contains("rust::") || src.contains("async ") || src.contains("await ") || src.contains("import polars") { continue; }
+            extra_reqs.push(format!("c02 example {}", f.trim_start_matches("/repo/").replace('/', ":")));
+            extra_cases.push(Case { name: String::new(), source: src });
+        }
+    }
+    // the feature templates of C01 (classes, traits, enums, Option / Result, closures, slices, loops mutating their
+    // elements in every branch, field defaults …): here only "accepted => builds" is asked of them
+    for f in crate::c01feat::programs(&mut rng) {
+        extra_reqs.push(format!("c02 example feature:{}", f.name));
+        extra_cases.push(Case { name: String::new(), source: f.incan });
+    }
     let ev: Vec<String> = extra_cases.iter().map(|c| check_verdict(&c.source)).collect();
     let eo = runner::run_batch("/verif/.build/batch/c02", "/verif/.build/batch-target", &extra_cases);
     for (i, req) in extra_reqs.iter().enumerate() {
@@ -562,9 +590,13 @@ pub fn run_c02(out: &mut Out, tier: &str, seed: u64, _scratch: &str) {
         vec!["pkg/one", "pkg/two", "pkg/three"],
         vec!["x/y/m1", "x/y/m2", "x/z/m3", "x/z/m4"],
         vec!["solo"],
+        // a module that is also a directory of modules (a.incn next to a/b.incn): a.rs + a/b.rs, never a/mod.rs
+        vec!["a", "a/b", "a/c/d"],
     ];
     let n_proj = if tier == "thorough" { layouts.len() } else { 3 };
-    for (li, layout) in layouts.iter().enumerate().take(n_proj) {
+    // the last layout (module = directory) runs in every tier
+    let picked: Vec<usize> = (0..layouts.len()).filter(|i| *i < n_proj || *i == layouts.len() - 1).collect();
+    for (li, layout) in layouts.iter().enumerate().filter(|(i, _)| picked.contains(i)) {
         let root = format!("/verif/.build/batch/c02proj{li}");
         let _ = std::fs::remove_dir_all(&root);
         let mut main = String::new();
